@@ -239,3 +239,91 @@ def r16h(R):
                         ', '.join(repr(ch) for ch, h in zip(WS, hits) if not h)))
     if n < 10:
         raise AnalysisError('token regex: only %d character leaves' % n)
+
+
+# ------------------------------------------------------------------ R05.i
+CONTEXT = 'bardolph.parser.context'
+
+
+def _flag_writers(A, ctx):
+    """{flag attribute: {method: set of constant values stored}} for the
+    boolean flags Context.__init__ creates"""
+    init = ctx.methods['__init__']
+    flags = set()
+    for n in walk_own(init.node):
+        if isinstance(n, ast.Assign) and self_attr(n.targets[0]) \
+                and isinstance(n.value, ast.Constant) \
+                and isinstance(n.value.value, bool):
+            flags.add(n.targets[0].attr)
+    out = {f: {} for f in flags}
+    for m in ctx.methods.values():
+        for n in walk_own(m.node):
+            if isinstance(n, ast.Assign):
+                for t in n.targets:
+                    if self_attr(t) and t.attr in flags:
+                        v = n.value.value if isinstance(n.value, ast.Constant) \
+                            else '?'
+                        out[t.attr].setdefault(m, set()).add(v)
+    return out
+
+
+@rule('R05.i', ('C05', 'C06'), 'a parsing-mode flag stays set for the whole '
+      'construct: nothing reachable between enter_x() and exit_x() clears it',
+      floor=2,
+      decides='a definition inside a routine body is rejected wherever in the '
+              'body it stands: routine bodies are never nested in the '
+              'generated code')
+def r05i(R):
+    A = R.A
+    ctx = A.cls(CONTEXT, 'Context')
+    writers = _flag_writers(A, ctx)
+    if len(writers) < 2:
+        raise AnalysisError('Context: %d mode flags found' % len(writers))
+    seen = 0
+    for flag, ws in sorted(writers.items()):
+        setters = [m for m, vals in ws.items() if True in vals
+                   and m.name not in ('__init__',)]
+        clearers = [m for m, vals in ws.items() if vals != {True}
+                    and m.name != '__init__']
+        for enter in setters:
+            for site in A.rs.callers(enter):
+                g = site.func
+                if g.cls is ctx:
+                    continue
+                cfg = A.cfg(g)
+                ent = A.calls_nodes(g, enter.short)
+                # the matching exit: a clearer of this flag called in g
+                exits = [n for c in clearers for n in A.calls_nodes(g, c.short)]
+                if not ent or not exits:
+                    continue
+                inside = cfg.reachable_from([m for n in ent for m, _l in n.succs],
+                                            avoid=exits)
+                roots = set()
+                for n in inside:
+                    if n in exits:
+                        continue
+                    for c in n.calls():
+                        roots.update(A.callees(g, c))
+                roots.discard(g)
+                reach = A.rs.reachable(list(roots), stop=(g,))
+                bad = [f for f in reach if f in clearers]
+                seen += 1
+                path = ''
+                if bad:
+                    for r in roots:
+                        p = A.rs.call_path(r, bad[0])
+                        if p and g not in p:
+                            path = ' -> '.join(x.short for x in p)
+                            break
+                R.check(g, '%s: %s() ... %s()' % (
+                    flag, enter.name, '/'.join(sorted(set(
+                        c.name for c in clearers if A.calls_nodes(g, c.short))))),
+                    not bad,
+                    'while %s is parsing the construct (flag %s set), %s can '
+                    'be reached (%s) and clears the flag: from there on the '
+                    'parser believes the construct is over - a `define` in '
+                    'the rest of a routine body is accepted and its body is '
+                    'generated inside the enclosing one' % (
+                        g.short, flag, bad[0].short if bad else '', path))
+    if seen < 2:
+        raise AnalysisError('only %d enter/exit regions found' % seen)
